@@ -193,6 +193,10 @@ LenGapCells(i) == IF i # 1 THEN {} ELSE
 CkCells(i) ==
      { Cell("ck:" \o w \o ":" \o alg, <<Sc(Nm("pre", i), "u32"), [F0 EXCEPT !.k = "ck", !.name = Nm("ck", i), !.ty = w, !.alg = alg]>>, {}, FALSE) :
          w \in {"u8", "u16", "u32", "u64"}, alg \in {"REG", "NONE"} }
+\* a name that differs from a registered one only in LETTER CASE is not registered: the caller's value is written
+\cup { Cell("ck:" \o x[1] \o ":case:" \o x[2],
+            <<Sc(Nm("pre", i), "u32"), [F0 EXCEPT !.k = "ck", !.name = Nm("ck", i), !.ty = x[1], !.alg = x[2]]>>, {}, FALSE) :
+         x \in {<<"u16", "vsum16">>, <<"u32", "Vsum32">>} }
 \* two checksum fields with different algorithms in one packet
 \cup { Cell("ck:two:" \o a1 \o ":" \o a2,
             <<Sc(Nm("pre", i), "u32"), [F0 EXCEPT !.k = "ck", !.name = Nm("cka", i), !.ty = "u16", !.alg = a1],
